@@ -41,6 +41,9 @@ type acceptEngine struct {
 	c        *Ctx
 	memo     map[string]int // fn|fact -> 0 unknown,1 yes,2 no,3 in progress
 	evidence map[string][]ir.Edge
+	// structUndecided: functions that report their outcome in a field of a struct
+	// result built in a shape fieldAtReturn does not follow
+	structUndecided map[*ssa.Function]bool
 }
 
 func (c *Ctx) accept() *acceptEngine {
@@ -140,9 +143,75 @@ func isCallerCert(fn *ssa.Function, v ssa.Value) bool {
 		return v == ssa.Value(cs.free)
 	}
 	if cs.field == "" {
-		return v == ssa.Value(cs.param)
+		if v == ssa.Value(cs.param) {
+			return true
+		}
+		// the parameter's own cell (it lives in memory because a closure captures it):
+		// written once, with the parameter, and only read by the closures
+		if ld, isLd := v.(*ssa.UnOp); isLd && ld.Op == token.MUL {
+			if a, isA := ld.X.(*ssa.Alloc); isA && paramCell(a) == cs.param {
+				return true
+			}
+		}
+		return false
 	}
 	return fieldIDOf(v) == cs.field && paramRoot(loadAddr(v), fn) == cs.param
+}
+
+// paramCell: the local cell a holds a parameter and nothing else: its only
+// store is the parameter, everything else loads it, and the closures that
+// capture it only load it as well.
+func paramCell(a *ssa.Alloc) *ssa.Parameter {
+	if a.Referrers() == nil {
+		return nil
+	}
+	var par *ssa.Parameter
+	n := 0
+	for _, r := range *a.Referrers() {
+		switch x := r.(type) {
+		case *ssa.Store:
+			if x.Addr != ssa.Value(a) {
+				return nil
+			}
+			n++
+			par, _ = x.Val.(*ssa.Parameter)
+		case *ssa.UnOp:
+			if x.Op != token.MUL {
+				return nil
+			}
+		case *ssa.DebugRef:
+		case *ssa.MakeClosure:
+			cf, _ := x.Fn.(*ssa.Function)
+			if cf == nil {
+				return nil
+			}
+			for k, b := range x.Bindings {
+				if b != ssa.Value(a) {
+					continue
+				}
+				if k >= len(cf.FreeVars) || cf.FreeVars[k].Referrers() == nil {
+					return nil
+				}
+				for _, fr := range *cf.FreeVars[k].Referrers() {
+					switch y := fr.(type) {
+					case *ssa.UnOp:
+						if y.Op != token.MUL {
+							return nil
+						}
+					case *ssa.DebugRef:
+					default:
+						return nil
+					}
+				}
+			}
+		default:
+			return nil
+		}
+	}
+	if n != 1 {
+		return nil
+	}
+	return par
 }
 
 // paramRoot: the parameter of fn (or of the function enclosing a closure fn)
@@ -374,6 +443,7 @@ func (e *acceptEngine) observe(fn *ssa.Function, ce ir.CondEdge) (*ssa.Call, boo
 	cond, truth := condOf(fn, ce)
 	// bool result observed true
 	if core, neg := ir.Peel(cond); isBoolType(core.Type()) && truth != neg {
+		core = spilledValue(core)
 		if call := callOf(core); call != nil {
 			if ex, isEx := core.(*ssa.Extract); isEx && ex.Index != 0 {
 				// (value, ok) helpers: the ok result is the verdict
@@ -389,7 +459,7 @@ func (e *acceptEngine) observe(fn *ssa.Function, ce ir.CondEdge) (*ssa.Call, boo
 	}
 	// a lookup result observed non-nil
 	if v, nilWhenTrue, ok := ir.NilCheck(cond); ok && nilable(v.Type()) && truth != nilWhenTrue {
-		if call, isCall := v.(*ssa.Call); isCall {
+		if call, isCall := spilledValue(v).(*ssa.Call); isCall {
 			if callee := ir.Callee(call); callee != nil && e.c.P.InLib(callee) && callee.Signature.Results().Len() == 1 {
 				return call, false
 			}
@@ -400,6 +470,7 @@ func (e *acceptEngine) observe(fn *ssa.Function, ce ir.CondEdge) (*ssa.Call, boo
 		if !isNil {
 			return nil, false
 		}
+		v = spilledValue(v)
 		for _, oc := range errorOrigins(v, map[ssa.Value]bool{}) {
 			callee := ir.Callee(oc)
 			if callee == nil || !e.c.P.InLib(callee) {
@@ -414,6 +485,70 @@ func (e *acceptEngine) observe(fn *ssa.Function, ce ir.CondEdge) (*ssa.Call, boo
 		}
 	}
 	return nil, false
+}
+
+// spilledValue: v is the load of a local variable that lives in memory only
+// because a deferred closure captures it (named results with a deferred
+// wrapper); the value it has at the load is the one stored last before it in
+// the same block (or in the chain of single predecessors) with no other store
+// in between. Nothing but the deferred closure, which runs at the returns, can
+// write the variable behind the function's back. Otherwise v itself.
+func spilledValue(v ssa.Value) ssa.Value {
+	ld, ok := v.(*ssa.UnOp)
+	if !ok || ld.Op != token.MUL {
+		return v
+	}
+	a, ok := ld.X.(*ssa.Alloc)
+	if !ok || a.Referrers() == nil {
+		return v
+	}
+	for _, r := range *a.Referrers() {
+		switch x := r.(type) {
+		case *ssa.Store:
+			if x.Addr != ssa.Value(a) {
+				return v
+			}
+		case *ssa.UnOp:
+			if x.Op != token.MUL {
+				return v
+			}
+		case *ssa.DebugRef:
+		case *ssa.MakeClosure:
+			// only deferred
+			if x.Referrers() == nil {
+				return v
+			}
+			for _, rr := range *x.Referrers() {
+				if _, isDefer := rr.(*ssa.Defer); !isDefer {
+					if _, isDbg := rr.(*ssa.DebugRef); !isDbg {
+						return v
+					}
+				}
+			}
+		default:
+			return v
+		}
+	}
+	b := ld.Block()
+	idx := len(b.Instrs)
+	for k, in := range b.Instrs {
+		if in == ssa.Instruction(ld) {
+			idx = k
+		}
+	}
+	for hops := 0; hops < 6; hops++ {
+		for k := idx - 1; k >= 0; k-- {
+			if st, isSt := b.Instrs[k].(*ssa.Store); isSt && st.Addr == ssa.Value(a) {
+				return st.Val
+			}
+		}
+		if len(b.Preds) != 1 {
+			return v
+		}
+		b = b.Preds[0]
+		idx = len(b.Instrs)
+	}
+	return v
 }
 
 // observedEstablishes: the edge observes the accepting outcome of a callee
@@ -511,6 +646,12 @@ func (e *acceptEngine) valueEstablishes(fn *ssa.Function, v ssa.Value, f *fact, 
 	if call, em := e.observe(fn, ir.CondEdge{Cond: core, Truth: !neg}); call != nil && certArgsOK(fn, call) && e.establishesMode(ir.Callee(call), f, em) {
 		return true
 	}
+	// a boolean field of the struct a library function returned (verdict{valid, err})
+	if call, k, ok := structResultField(core); ok && !neg {
+		if callee := ir.Callee(call); callee != nil && e.c.P.InLib(callee) && certArgsOK(fn, call) && e.establishesField(callee, f, k) {
+			return true
+		}
+	}
 	if ph, ok := core.(*ssa.Phi); ok && !neg {
 		any := false
 		for _, ev := range ph.Edges {
@@ -528,6 +669,206 @@ func (e *acceptEngine) valueEstablishes(fn *ssa.Function, v ssa.Value, f *fact, 
 		return any
 	}
 	return false
+}
+
+// structResultField: v reads field k of a struct that is, as a whole, the result
+// of one call: call().f, or the load of field f of a local variable whose only
+// store is the call's result and which is otherwise only read.
+func structResultField(v ssa.Value) (*ssa.Call, int, bool) {
+	switch x := v.(type) {
+	case *ssa.Field:
+		if call, ok := x.X.(*ssa.Call); ok {
+			if _, isStruct := call.Type().Underlying().(*types.Struct); isStruct {
+				return call, x.Field, true
+			}
+		}
+		if ld, ok := x.X.(*ssa.UnOp); ok && ld.Op == token.MUL {
+			if a, isA := ld.X.(*ssa.Alloc); isA {
+				if call := wholeStructCell(a); call != nil {
+					return call, x.Field, true
+				}
+			}
+		}
+	case *ssa.UnOp:
+		if x.Op != token.MUL {
+			return nil, 0, false
+		}
+		fa, ok := x.X.(*ssa.FieldAddr)
+		if !ok {
+			return nil, 0, false
+		}
+		a, ok := fa.X.(*ssa.Alloc)
+		if !ok {
+			return nil, 0, false
+		}
+		if call := wholeStructCell(a); call != nil {
+			return call, fa.Field, true
+		}
+	}
+	return nil, 0, false
+}
+
+// wholeStructCell: the local struct variable a is assigned once, as a whole, from
+// the result of a call, and is otherwise only read (whole, or field by field);
+// returns that call.
+func wholeStructCell(a *ssa.Alloc) *ssa.Call {
+	if a.Referrers() == nil {
+		return nil
+	}
+	if _, isStruct := a.Type().Underlying().(*types.Pointer).Elem().Underlying().(*types.Struct); !isStruct {
+		return nil
+	}
+	var call *ssa.Call
+	n := 0
+	for _, r := range *a.Referrers() {
+		switch x := r.(type) {
+		case *ssa.Store:
+			if x.Addr != ssa.Value(a) {
+				return nil
+			}
+			n++
+			call, _ = x.Val.(*ssa.Call)
+		case *ssa.UnOp:
+			if x.Op != token.MUL {
+				return nil
+			}
+		case *ssa.FieldAddr:
+			if x.Referrers() == nil {
+				continue
+			}
+			for _, fr := range *x.Referrers() {
+				switch y := fr.(type) {
+				case *ssa.UnOp:
+					if y.Op != token.MUL {
+						return nil
+					}
+				case *ssa.DebugRef:
+				default:
+					return nil
+				}
+			}
+		case *ssa.DebugRef:
+		default:
+			return nil
+		}
+	}
+	if n != 1 {
+		return nil
+	}
+	return call
+}
+
+// fieldAtReturn: the value field k of the struct result has at return r of g.
+// zero: the field is never written (it holds its zero value). known=false: the
+// result is built in a shape that is not followed.
+func fieldAtReturn(g *ssa.Function, r *ssa.Return, k int) (val ssa.Value, zero, known bool) {
+	if len(r.Results) != 1 {
+		return nil, false, false
+	}
+	ld, ok := r.Results[0].(*ssa.UnOp)
+	if !ok || ld.Op != token.MUL {
+		return nil, false, false
+	}
+	a, ok := ld.X.(*ssa.Alloc)
+	if !ok || a.Referrers() == nil {
+		return nil, false, false
+	}
+	var stores []*ssa.Store
+	for _, rf := range *a.Referrers() {
+		switch x := rf.(type) {
+		case *ssa.UnOp:
+			if x.Op != token.MUL {
+				return nil, false, false
+			}
+		case *ssa.DebugRef:
+		case *ssa.FieldAddr:
+			if x.Referrers() == nil {
+				continue
+			}
+			for _, fr := range *x.Referrers() {
+				switch y := fr.(type) {
+				case *ssa.Store:
+					if y.Addr != ssa.Value(x) {
+						return nil, false, false
+					}
+					if x.Field == k {
+						stores = append(stores, y)
+					}
+				case *ssa.UnOp:
+					if y.Op != token.MUL {
+						return nil, false, false
+					}
+				case *ssa.DebugRef:
+				default:
+					return nil, false, false
+				}
+			}
+		default:
+			// assigned as a whole, or its address handed on: not followed
+			return nil, false, false
+		}
+	}
+	switch len(stores) {
+	case 0:
+		return nil, true, true
+	case 1:
+		// the one store is made on the way to this return
+		if st := stores[0]; st.Block() == r.Block() || st.Block().Dominates(r.Block()) {
+			return st.Val, false, true
+		}
+	}
+	return nil, false, false
+}
+
+// establishesField: g reports its outcome in boolean field k of its struct
+// result; every return at which that field may be true carries fact f.
+func (e *acceptEngine) establishesField(g *ssa.Function, f *fact, k int) bool {
+	if g == nil || g.Blocks == nil {
+		return false
+	}
+	key := fmt.Sprintf("%s|%s|field%d", name(g), f.id, k)
+	switch e.memo[key] {
+	case 1:
+		return true
+	case 2, 3:
+		return false
+	}
+	e.memo[key] = 3
+	ok, n := true, 0
+	for _, r := range ir.Returns(g) {
+		if !reachableBlock(g, r.Block()) {
+			continue
+		}
+		val, zero, known := fieldAtReturn(g, r, k)
+		if !known || !zero && !isBoolType(val.Type()) {
+			if e.structUndecided == nil {
+				e.structUndecided = map[*ssa.Function]bool{}
+			}
+			e.structUndecided[g] = true
+			ok = false
+			break
+		}
+		if zero {
+			continue
+		}
+		if kc, isK := val.(*ssa.Const); isK && kc.Value != nil && !constant.BoolVal(kc.Value) {
+			continue
+		}
+		n++
+		if h, _ := e.holdsAtV(g, r, f, val); !h {
+			ok = false
+			break
+		}
+	}
+	if n == 0 {
+		ok = false
+	}
+	if ok {
+		e.memo[key] = 1
+	} else {
+		e.memo[key] = 2
+	}
+	return ok
 }
 
 func (e *acceptEngine) evidenceEdges(fn *ssa.Function, f *fact) []ir.Edge {
@@ -563,13 +904,23 @@ func (e *acceptEngine) evidenceEdges(fn *ssa.Function, f *fact) []ir.Edge {
 
 // holdsAt: fact f holds at return r of fn. witness describes a bypass path.
 func (e *acceptEngine) holdsAt(fn *ssa.Function, r *ssa.Return, f *fact) (bool, string) {
+	return e.holdsAtV(fn, r, f, nil)
+}
+
+// holdsAtV is holdsAt with the verdict given explicitly (verdict != nil): the
+// boolean value that says "accepted" at this return when the function reports its
+// outcome in a field of a struct result instead of a result of its own.
+func (e *acceptEngine) holdsAtV(fn *ssa.Function, r *ssa.Return, f *fact, verdict ssa.Value) (bool, string) {
 	// results as stored before the deferred calls run (named results)
 	rres := make([]ssa.Value, len(r.Results))
 	for k := range r.Results {
 		rres[k] = effectiveResult(fn, r, k)
 	}
+	if verdict != nil {
+		rres = []ssa.Value{verdict}
+	}
 	// tail delegation: return g(...)
-	if len(r.Results) > 0 {
+	if len(rres) > 0 {
 		if call := callOf(rres[0]); call != nil {
 			if callee := ir.Callee(call); callee != nil && e.c.P.InLib(callee) && certArgsOK(fn, call) && e.establishes(callee, f) {
 				return true, ""
@@ -579,7 +930,7 @@ func (e *acceptEngine) holdsAt(fn *ssa.Function, r *ssa.Return, f *fact) (bool, 
 	// an error result that is itself the outcome of the establishing step
 	// (`return cert.CheckSignature(...)`, `return check.run(...)`): nil means accepted
 	errTail := false
-	if n := len(r.Results); n > 0 && isErrorType(rres[n-1].Type()) && !(n > 1 && isBoolType(rres[0].Type())) {
+	if n := len(rres); n > 0 && isErrorType(rres[n-1].Type()) && !(n > 1 && isBoolType(rres[0].Type())) {
 		if _, isConst := rres[n-1].(*ssa.Const); !isConst {
 			ev := rres[n-1]
 			if f.direct(e.c, fn, ir.CondEdge{Cond: ev, Truth: true}) {
@@ -616,18 +967,57 @@ func (e *acceptEngine) holdsAt(fn *ssa.Function, r *ssa.Return, f *fact) (bool, 
 			if st != fn.Blocks[0] && !reachableBlock(fn, st) {
 				continue
 			}
-			seen, prev := ir.ReachF(fn, st, cut)
+			// (an error variable that holds a value known to be non-nil where it flows into a
+			// join cannot be found nil by the test that follows the join)
+			seen, prev := ir.ReachFE(fn, st, -1, cut, func(v ssa.Value, pred, blk *ssa.BasicBlock) bool {
+				return isErrorType(v.Type()) && errNonNilOnEdge(fn, v, pred, blk)
+			})
 			if seen[target.Index] {
 				return true, ir.PathTo(fn, prev, st.Index, target.Index, e.c.Pos)
 			}
 		}
 		return false, ""
 	}
+	// one error variable assigned on several paths and returned once (the return
+	// block joins them in a phi): an incoming edge whose value cannot be nil there
+	// (just made by errors.New / fmt.Errorf, or found non-nil on the way) is a
+	// rejecting outcome; every other edge is judged on its own
+	if n := len(rres); n > 0 && isErrorType(rres[n-1].Type()) && !(n > 1 && isBoolType(rres[0].Type())) {
+		ph, isPhi := rres[n-1].(*ssa.Phi)
+		if isPhi && ph.Block() == r.Block() {
+			// (a predecessor that the jump-threaded view leaves out is not judged edge by edge)
+			for _, pred := range ph.Block().Preds {
+				if !reachableBlock(fn, pred) {
+					isPhi = false
+				}
+			}
+		}
+		if isPhi && ph.Block() == r.Block() {
+			for k, ev := range ph.Edges {
+				pred := ph.Block().Preds[k]
+				if errNonNilOnEdge(fn, ev, pred, ph.Block()) || cut[ir.Edge{From: pred.Index, To: ph.Block().Index}] {
+					continue
+				}
+				if _, isConst := ev.(*ssa.Const); !isConst {
+					if f.direct(e.c, fn, ir.CondEdge{Cond: ev, Truth: true}) {
+						continue
+					}
+					if call, em := e.observe(fn, ir.CondEdge{Cond: ev, Truth: true}); call != nil && certArgsOK(fn, call) && e.establishesMode(ir.Callee(call), f, em) {
+						continue
+					}
+				}
+				if hit, w := reachable(pred); hit {
+					return false, w
+				}
+			}
+			return true, ""
+		}
+	}
 	// a boolean result computed by an expression (a && b lowers to a phi whose
 	// edges carry `false` or the last conjunct): each edge that may carry true
 	// is judged on its own — the value on the edge is itself a condition that
 	// holds when the function accepts
-	if len(r.Results) > 0 && isBoolType(rres[0].Type()) {
+	if len(rres) > 0 && isBoolType(rres[0].Type()) {
 		type edgeVal struct {
 			val  ssa.Value
 			pred *ssa.BasicBlock
@@ -708,6 +1098,11 @@ func (e *acceptEngine) establishesMode(fn *ssa.Function, f *fact, errMode bool) 
 func (e *acceptEngine) Require(rule string, fn *ssa.Function, facts []*fact) {
 	acc := acceptingReturns(fn)
 	if len(acc) == 0 {
+		// the verdict may be given in a deferred function that clears the named error result
+		if g, stores := deferredVerdict(fn); g != nil {
+			e.requireDeferred(rule, fn, g, stores, facts)
+			return
+		}
 		e.c.R.Undecf(rule, name(fn), "accepting-return", e.c.Pos(fn.Pos()), "verifier must have an accepting return", "no return may report success")
 		return
 	}
@@ -739,6 +1134,19 @@ func (e *acceptEngine) Require(rule string, fn *ssa.Function, facts []*fact) {
 			if why := e.tupleVerdict(fn); why != "" {
 				e.c.R.Infof(rule+"."+f.id, name(fn), f.id, e.c.Pos(fn.Pos()), "not decided for this shape: "+f.what+" — "+why)
 				continue
+			}
+			if len(e.structUndecided) > 0 {
+				why := ""
+				reach, _ := e.c.Reachable([]*ssa.Function{fn})
+				for g := range e.structUndecided {
+					if reach[g] && (why == "" || name(g) < why) {
+						why = name(g)
+					}
+				}
+				if why != "" {
+					e.c.R.Infof(rule+"."+f.id, name(fn), f.id, e.c.Pos(fn.Pos()), "not decided for this shape: "+f.what+" — the outcome of "+why+" is reported in a field of a struct result that is built in a way the path engine does not follow")
+					continue
+				}
 			}
 			if at := e.unfollowedCall(fn, f, nil); at != "" {
 				e.c.R.Infof(rule+"."+f.id, name(fn), f.id, e.c.Pos(fn.Pos()), "not decided for this shape: "+f.what+" — the accepting outcome depends on a function value the path engine does not follow ("+at+")")
@@ -1168,6 +1576,12 @@ func sha256Only(c *Ctx, sl map[ssa.Value]bool) bool {
 		if !ok {
 			continue
 		}
+		if ir.CallID(call) == "sync.Pool.Get" {
+			// a state taken from a pool of reset states stands for what the pool's New constructs
+			if pc, _ := c.pooledCtor(call); pc != nil {
+				call = pc
+			}
+		}
 		switch id := ir.CallID(call); {
 		case id == "crypto/sha256.Sum256" || id == "crypto/sha256.New":
 			found = true
@@ -1322,6 +1736,27 @@ var factDigestAlg = &fact{id: "digest-algorithm", what: "the digest algorithm na
 					}
 				}
 			})
+			// ... or are the keys of a package-level map that only the initialiser fills
+			// (alg, found := table[oid.String()]), the found flag being what is tested
+			instrsOf(g, func(i ssa.Instruction) {
+				lk, ok := i.(*ssa.Lookup)
+				if !ok || !lk.CommaOk || why != "" {
+					return
+				}
+				gl, initOnly := c.initOnlyMap(lk)
+				if !initOnly {
+					return
+				}
+				ks := c.sliceOf(lk.Index)
+				if !(ir.HasField(ks, M+"/authenticode.Authenticode.Algid") || ir.HasField(ks, "crypto/x509/pkix.AlgorithmIdentifier.Algorithm")) {
+					return
+				}
+				for _, ce := range ir.CondEdges(g) {
+					if ex, isEx := ce.Cond.(*ssa.Extract); isEx && ex.Tuple == ssa.Value(lk) && ex.Index == 1 {
+						why = "the identifier is looked up among the keys of the package-level map " + gl.Name() + " (filled by the initialiser) in " + name(g) + "; which identifiers the initialiser enters is not evaluated"
+					}
+				}
+			})
 		}
 		return why
 	},
@@ -1411,6 +1846,74 @@ var factDigestAlg = &fact{id: "digest-algorithm", what: "the digest algorithm na
 		return globalSHA(call.Call.Args[0]) && alg(sb) || globalSHA(call.Call.Args[1]) && alg(sa)
 	}}
 
+// initOnlyMap: lk looks a key up in a package-level map that only the package
+// initialisers (the synthetic one and the declared init functions) write: no
+// other function of the library stores the variable, updates or deletes an
+// entry, or hands the map on. Returns the variable.
+func (c *Ctx) initOnlyMap(lk *ssa.Lookup) (*ssa.Global, bool) {
+	ld, ok := lk.X.(*ssa.UnOp)
+	if !ok || ld.Op != token.MUL {
+		return nil, false
+	}
+	g, ok := ld.X.(*ssa.Global)
+	if !ok || g.Pkg == nil {
+		return nil, false
+	}
+	if _, isMap := g.Type().Underlying().(*types.Pointer).Elem().Underlying().(*types.Map); !isMap {
+		return nil, false
+	}
+	isInit := func(fn *ssa.Function) bool {
+		top := topFn(fn)
+		return top.Pkg == g.Pkg && (top.Name() == "init" || strings.HasPrefix(top.Name(), "init#"))
+	}
+	bad := false
+	scan := func(fn *ssa.Function) {
+		instrsOf(fn, func(i ssa.Instruction) {
+			for _, op := range i.Operands(nil) {
+				if op == nil || *op != ssa.Value(g) {
+					continue
+				}
+				l2, isLd := i.(*ssa.UnOp)
+				if !isLd || l2.Op != token.MUL || l2.Referrers() == nil {
+					bad = true
+					continue
+				}
+				for _, r := range *l2.Referrers() {
+					switch y := r.(type) {
+					case *ssa.Lookup, *ssa.Range, *ssa.DebugRef:
+					case *ssa.Call:
+						if b, isB := y.Call.Value.(*ssa.Builtin); !isB || b.Name() != "len" {
+							bad = true
+						}
+					default:
+						bad = true
+					}
+				}
+			}
+		})
+	}
+	seen := map[*ssa.Function]bool{}
+	for _, m := range g.Pkg.Members {
+		if top, isFn := m.(*ssa.Function); isFn {
+			for _, fn := range withAnon(top) {
+				if !isInit(fn) && !seen[fn] {
+					seen[fn] = true
+					scan(fn)
+				}
+			}
+		}
+	}
+	for _, top := range c.P.LibFunctions() {
+		for _, fn := range withAnon(top) {
+			if !isInit(fn) && !seen[fn] {
+				seen[fn] = true
+				scan(fn)
+			}
+		}
+	}
+	return g, !bad
+}
+
 // globalTableColumn: v reads field k of the element at a running index of a
 // package-level slice or array of structs that is built once in the package
 // initialiser and never written by library code; returns the values the
@@ -1480,6 +1983,46 @@ func (c *Ctx) globalTableColumn(v ssa.Value) ([]ssa.Value, bool) {
 			}
 		}
 	})
+	if at, isArr := g.Type().Underlying().(*types.Pointer).Elem().Underlying().(*types.Array); isArr && n == 0 {
+		// a package-level array: the initialiser fills its rows in place
+		rows := map[int64]ssa.Value{}
+		okAll := true
+		instrsOf(init, func(i ssa.Instruction) {
+			st, isSt := i.(*ssa.Store)
+			if !isSt || ir.RootOf(st.Addr) != ssa.Value(g) {
+				return
+			}
+			fa, isFA := st.Addr.(*ssa.FieldAddr)
+			if !isFA {
+				okAll = false // a whole row or something else stored: not followed
+				return
+			}
+			ia2, isIA := fa.X.(*ssa.IndexAddr)
+			if !isIA || ia2.X != ssa.Value(g) {
+				okAll = false
+				return
+			}
+			k, isK := ir.ConstInt(ia2.Index)
+			if !isK {
+				okAll = false
+				return
+			}
+			if fa.Field == field {
+				if _, twice := rows[k]; twice {
+					okAll = false
+				}
+				rows[k] = st.Val
+			}
+		})
+		if !okAll || int64(len(rows)) != at.Len() {
+			return nil, false
+		}
+		var out []ssa.Value
+		for k := int64(0); k < at.Len(); k++ {
+			out = append(out, rows[k])
+		}
+		return out, true
+	}
 	if n != 1 || arr == nil {
 		return nil, false
 	}
